@@ -12,6 +12,7 @@ import Torf.Lemmas.BencodeSmallMono
 import Torf.Lemmas.Explicit
 import Torf.Lemmas.ExplicitValidate
 import Torf.Lemmas.WriteInfo
+import Torf.Lemmas.CodecKeys
 import Torf.Model.ReadStream
 namespace Torf.C06
 open Torf Torf.Bencode Torf.Codec Torf.ReadStream
@@ -491,6 +492,106 @@ theorem C06_written_file (env : Env) (H : Bytes → Bytes) (md : List (PyVal × 
   · exact absurd h2 (by simp)
   · exact absurd h3 (by simp)
 
+/-! ### the keys of the metainfo and the keys of the output
+
+  A Python mapping may hold keys of any hashable type; `'info'` and `b'info'` are two keys of
+  `Torrent.metainfo` but would be one key of the output.  In the model a dict is a list of
+  (key, value) pairs whose keys range over *all* of `PyVal` (str, bytes, int, bool, None, float,
+  tuple, …); `encodeKvs` has the code's refusal of every key that is not a `str`
+  (torf/_utils.py:852-857 `if not isinstance(key, str): raise ValueError`).  So the claims below
+  were already consequences of the model (`C06_canonical` gives "no key twice in the bytes"); they
+  are stated here so that the property says them, and the generator now produces such keys. -/
+
+/-- **Keys are neither merged nor dropped nor invented.**  If `encode_dict` returns for a dict whose
+    `str` keys are pairwise distinct (a Python dict): every key of the dict is a `str`; the output
+    has exactly as many entries as the dict has keys; no output key occurs twice; and every output
+    entry `(kb, v)` is `(k.encode('utf8'), encoding of d[k])` for a `str` key `k` of the dict.
+    (The converse — every `d[k]` is emitted under `k.encode()` — is `mem_encodeDict`, used by
+    `C06_span` for `k = 'info'`.) -/
+theorem C06_keys_unique (kvs : List (PyVal × PyVal)) (u : BVal)
+    (h : encodeDict kvs = .ok u) (hn : (strKeys kvs).Nodup) :
+    ∃ ukvs, u = .dict ukvs ∧
+      (∀ p ∈ kvs, ∃ k, p.1 = .str k) ∧
+      ukvs.length = kvs.length ∧
+      (ukvs.map (·.1)).Nodup ∧
+      (∀ kb v, (kb, v) ∈ ukvs →
+        ∃ k m, PyVal.lookupStr k kvs = some m ∧ kb = utf8Enc k ∧ encodeValue m = .ok v) ∧
+      (∀ k m, PyVal.lookupStr k kvs = some m → ∃ v, encodeValue m = .ok v ∧ (utf8Enc k, v) ∈ ukvs) := by
+  obtain ⟨ukvs, hu, h1, h2, h3, h4⟩ := encodeDict_keys kvs u h hn
+  refine ⟨ukvs, hu, h1, h2, h3, h4, fun k m hl => ?_⟩
+  obtain ⟨ukvs', v, hu', hv, hm⟩ := mem_encodeDict k m kvs u h hl
+  have : ukvs' = ukvs := by rw [hu] at hu'; exact (BVal.dict.inj hu').symm
+  subst this
+  exact ⟨v, hv, hm⟩
+
+/-- **A key of any other type makes every export raise** (`bytes` — equal to an encoded `str` key or
+    not, valid UTF-8 or not —, `int`, `bool`, `None`, `float`, `tuple`, …): at top level `dump` is a
+    `MetainfoError`; inside `info` so is the calculation of the hash (`infohash` then raises, or
+    reports the stored hash of a magnet-born object — `C06_explicit_iff`). -/
+theorem C06_nonstr_key_refused (env : Env) (md : List (PyVal × PyVal)) (validate : Bool)
+    (p : PyVal × PyVal) (hk : ∀ k, p.1 ≠ .str k) :
+    (p ∈ ensureInfo md → dump env md validate = .error .metainfo) ∧
+    (∀ ikvs, PyVal.lookupStr "info" (ensureInfo md) = some (.dict ikvs) → p ∈ ikvs →
+      infoBytes env md = .error .metainfo) := by
+  constructor
+  · intro hp
+    obtain ⟨e, he⟩ := encodeDict_nonstr_key _ p hp hk
+    cases hd : dump env md validate with
+    | error e' => rw [WriteInfo.dump_err hd]
+    | ok bs =>
+      obtain ⟨u, hu, _⟩ := dump_ok hd
+      rw [he] at hu; exact absurd hu (by simp)
+  · intro ikvs hl hp
+    obtain ⟨e, he⟩ := encodeDict_nonstr_key _ p hp hk
+    cases hib : infoBytes env md with
+    | error e' => rw [infoBytes_err hib]
+    | ok ib =>
+      obtain ⟨ikvs', iu, _, hl', hiu, _⟩ := infoBytes_ok hib
+      have : ikvs' = ikvs := by simpa using hl'.symm.trans hl
+      subst this
+      rw [he] at hiu; exact absurd hiu (by simp)
+
+/-- `dump()` returned ⇒ the top-level dict and the `info` dict both went through `encode_dict`
+    with the guarantees of `C06_keys_unique`: in particular `metainfo` has only `str` keys, so no
+    `b'info'` next to `'info'`, and the entry emitted under `info` is the encoding of
+    `metainfo['info']` — the value the hash is calculated from. -/
+theorem C06_dump_keys (env : Env) (md : List (PyVal × PyVal)) (validate : Bool) (bs : Bytes)
+    (hw : wf (.dict (ensureInfo md)) = true) (hd : dump env md validate = .ok bs) :
+    ∃ ukvs, bs = ser (.dict ukvs) ∧
+      (∀ p ∈ ensureInfo md, ∃ k, p.1 = .str k) ∧
+      ukvs.length = (ensureInfo md).length ∧ (ukvs.map (·.1)).Nodup ∧
+      (∀ iv, PyVal.lookupStr "info" (ensureInfo md) = some iv →
+        ∃ v, encodeValue iv = .ok v ∧ (kInfo, v) ∈ ukvs ∧ ∀ v', (kInfo, v') ∈ ukvs → v' = v) := by
+  obtain ⟨u, hu, _, hbs⟩ := dump_ok hd
+  have hn : (strKeys (ensureInfo md)).Nodup := by
+    have := hw; simp only [wf, Bool.and_eq_true, decide_eq_true_eq] at this; exact this.1
+  obtain ⟨ukvs, rfl, h1, h2, h3, _, h5⟩ := C06_keys_unique _ u hu hn
+  refine ⟨ukvs, hbs, h1, h2, h3, fun iv hl => ?_⟩
+  obtain ⟨v, hv, hm⟩ := h5 "info" iv hl
+  have hk : utf8Enc "info" = kInfo := by decide
+  rw [hk] at hm
+  refine ⟨v, hv, hm, fun v' hm' => ?_⟩
+  -- two entries with the same key in a list whose keys are pairwise distinct are one entry
+  have key : ∀ (l : List (Bytes × BVal)), (l.map (·.1)).Nodup → (kInfo, v) ∈ l → (kInfo, v') ∈ l → v' = v := by
+    intro l
+    induction l with
+    | nil => intro _ h; simp at h
+    | cons q r ih =>
+      intro hnd ha hb
+      simp only [List.map_cons, List.nodup_cons] at hnd
+      rcases List.mem_cons.mp ha with ha1 | ha1
+      · rcases List.mem_cons.mp hb with hb1 | hb1
+        · exact (Prod.mk.inj (hb1.trans ha1.symm)).2
+        · have : kInfo ∈ r.map (·.1) := List.mem_map.mpr ⟨(kInfo, v'), hb1, rfl⟩
+          rw [← ha1] at hnd
+          exact absurd this hnd.1
+      · rcases List.mem_cons.mp hb with hb1 | hb1
+        · have : kInfo ∈ r.map (·.1) := List.mem_map.mpr ⟨(kInfo, v), ha1, rfl⟩
+          rw [← hb1] at hnd
+          exact absurd this hnd.1
+        · exact ih hnd.2 ha1 hb1
+  exact key ukvs h3 hm hm'
+
 /-! ### non-vacuity -/
 
 /-- non-vacuity of `C06_span`, `C06_magnet`, `C06_magnet_ok`, `C06_base32`, `C06_base32_shape`:
@@ -533,5 +634,16 @@ example :
     (WriteInfo.writeFile exEnv exMd true true ⟨.file [1, 2, 3], { existsAns := true }⟩).2.1.node = .file exDump ∧
     (WriteInfo.writeFile exEnv exMd true true ⟨.absent, { existsAns := false, quota := some 10 }⟩).1.toBool = false :=
   ⟨by decide +kernel, by decide +kernel, by decide +kernel⟩
+
+/-- non-vacuity of `C06_keys_unique` / `C06_dump_keys` (hypotheses hold on `exMd`, see above) and of
+    `C06_nonstr_key_refused`: `{'info': …, b'info': …}` — the colliding bytes key — is refused, and so
+    are `{1: 2}`, `{True: 0}`, `{None: 0}`, `{('t',): 1}`. -/
+example :
+    (encodeDict [(.str "info", .dict []), (.bytes kInfo, .dict [(.str "name", .str "x")])]).toBool = false ∧
+    (encodeDict [(.int 1, .int 2)]).toBool = false ∧ (encodeDict [(.bool true, .int 0)]).toBool = false ∧
+    (encodeDict [(.none, .int 0)]).toBool = false ∧ (encodeDict [(.tuple [.str "t"], .int 1)]).toBool = false ∧
+    (strKeys (ensureInfo exMd)).Nodup ∧ (encodeDict (ensureInfo exMd)).toBool = true :=
+  ⟨by decide +kernel, by decide +kernel, by decide +kernel, by decide +kernel, by decide +kernel, by decide,
+   by decide +kernel⟩
 
 end Torf.C06
